@@ -1,7 +1,7 @@
 #!/usr/bin/env bash
 # usage: try_mutation.sh <patch.diff> <Cxx> [tier]   -- apply a seeded change to /repo, run the check, undo.
 set -u
-patch="$1"; prop="$2"; tier="${3:-quick}"
+patch=$(realpath "$1"); prop="$2"; tier="${3:-quick}"
 if ! git -C /repo diff --quiet; then echo "repo dirty, refusing"; exit 3; fi
 git -C /repo apply "$patch" || { echo "patch does not apply"; exit 3; }
 out=$(/verif/check "$prop" "$tier" 2>&1); code=$?
